@@ -404,6 +404,11 @@ func coordinate(ck *Check, tier string, seed int64) int {
 	written := map[string]int{}
 	var unknownSigs []string
 	os.MkdirAll(filepath.Join(verifDir(), "replays"), 0o755)
+	if old, _ := filepath.Glob(filepath.Join(verifDir(), "replays", ck.ID+"-*.json")); len(old) > 0 {
+		for _, f := range old {
+			os.Remove(f)
+		}
+	}
 	for _, v := range merged.Violations {
 		if kf, ok := openSig[v.Sig]; ok {
 			if !seenKnown[v.Sig] {
